@@ -107,10 +107,6 @@ class MapsBetween:
         return 'at least %s, at most %s' % (sorted(map(path_str, self.req)), sorted(map(path_str, self.ok)))
 
 
-def rules_at(sc, c):
-    return [r for call in sc['calls'][:c] for r in call['add']]
-
-
 def candidate_keys(sc):
     """Every key a file of the tree could be stored under (as is / extension dropped)."""
     ks = set()
